@@ -94,6 +94,11 @@ func (s *subscriptionActor) onUnsubscribeRequest(ctx ActorContext, m *messages.U
 		return
 	}
 
+	// subscription ids are unique per node only: a subscription handed over from another node (it is a network
+	// message) must not cancel the local subscription that happens to carry the same id
+	if current, ok := subs[m.Subscription.Id]; !ok || !current.Subscriber.Equal(m.Subscription.Subscriber) {
+		return
+	}
 	delete(subs, m.Subscription.Id)
 }
 
